@@ -2,7 +2,7 @@
 import itertools
 
 ID = "C13"
-LEAN_MODULES = ["GoaktVerif.Props.C13"]
+LEAN_MODULES = ["GoaktVerif.Props.C13", "GoaktVerif.Props.C13.Pool"]
 THEOREMS = [
     "GoaktVerif.C13.inv_doAct",
     "GoaktVerif.C13.inv_sysStep",
@@ -21,12 +21,17 @@ THEOREMS = [
     "GoaktVerif.C13.C13_holds",
     "GoaktVerif.C13.runCase_is_run",
     "GoaktVerif.C13.runCase_inv",
+    # physical layer: which ReceiveContext object is where (pools.go / intrusive mailboxes / clones)
+    "GoaktVerif.C13.Pool.good_step",
+    "GoaktVerif.C13.Pool.pool_no_alias",
+    "GoaktVerif.C13.Pool.stashed_not_pooled",
+    "GoaktVerif.C13.Pool.pool_fast_aliases",
 ]
 INPKG = ["actor/zz_verif_c13.go"]
 TIMEOUT = 1500
 MANIFEST = {
-    "level_text": "Kernel-checked theorems over a model of PID.stash/unstash/unstashAll (actor/stash.go) with re-entry at the mailbox tail (doReceive), for ANY message type, ANY interleaving of arrivals and deliveries and ANY list of Stash/Unstash/UnstashAll calls per delivery (C13_holds, induction over runs of arbitrary length): conservation invariant (stashed = released ++ stash, enqueued = delivered ++ mailbox), hence re-deliveries are a prefix of the released messages which are a prefix of the stashed ones (same order, never duplicated), nothing is lost, and with drained mailbox and empty stash the re-deliveries are exactly the stashed messages once each in stash order; Unstash releases the oldest, UnstashAll all in order; without a buffer every call returns ErrStashBufferNotSet and changes nothing. The model is tied to /repo on every run by a differential against a scripted actor in a real actor system (deterministic arrival order through gate messages, quiescence by a counting mailbox wrapper), and the spec oracle (Spec/C13.check) is evaluated on the real actor's observations.",
-    "level_note": "Tie is a differential (sampled), not a translation; cloneContext is modelled as copying the payload (its pooling and the copied err/response fields are outside the model); the reentrancy stash path (enableReentrancyStash/unstashAll after a blocking request) uses the same three functions but is not driven by the harness; mailbox FIFO itself is C03/C04's subject and is assumed here for UnboundedMailbox (observed by the differential).",
+    "level_text": "Kernel-checked theorems over a model of PID.stash/unstash/unstashAll (actor/stash.go) with re-entry at the mailbox tail (doReceive), for ANY message type, ANY interleaving of arrivals and deliveries and ANY list of Stash/Unstash/UnstashAll calls per delivery (C13_holds, induction over runs of arbitrary length): conservation invariant (stashed = released ++ stash, enqueued = delivered ++ mailbox), hence re-deliveries are a prefix of the released messages which are a prefix of the stashed ones (same order, never duplicated), nothing is lost, and with drained mailbox and empty stash the re-deliveries are exactly the stashed messages once each in stash order; Unstash releases the oldest, UnstashAll all in order; without a buffer every call returns ErrStashBufferNotSet and changes nothing. The model is tied to /repo on every run by a differential against a scripted actor in a real actor system (deterministic arrival order through gate messages, quiescence by a counting mailbox wrapper), and the spec oracle (Spec/C13.check) is evaluated on the real actor's observations. Physical layer (Model/C13/Pool, Props/C13/Pool): with contexts as objects, mailbox sentinels, recycling of the previous sentinel into the global pool on Dequeue, getContext/cloneContext and other actors draining the pool, pool_no_alias proves for every run that main sentinel (= handled context), queued main contexts, stash sentinel, stashed contexts and free pooled contexts are pairwise distinct; pool_fast_aliases shows the seeded fast path (no clone) breaks it. Tied by an observation on the real objects at the end of every delivery (chains of both mailboxes and a snapshot of contextCh): `alias=0`.",
+    "level_note": "Tie is a differential (sampled), not a translation; cloneContext's field copy is modelled as copying the payload (the copied err/response fields are outside the model); the physical layer is tied by an invariant observation on the real objects (not a differential of object identities: the global pool is shared with the system actors, so identities are not reproducible), and the model lets a Dequeue always pool the old sentinel (the real pool drops it when full - fewer free contexts, same invariant); the reentrancy stash path (enableReentrancyStash/unstashAll after a blocking request) uses the same three functions but is not driven by the harness; mailbox FIFO itself is C03/C04's subject and is assumed here for UnboundedMailbox (observed by the differential).",
     "technique": "Lean 4 proof (inductive conservation invariant over arbitrary runs) + model/implementation differential through a real actor system + executable spec oracle on the implementation's observations",
 }
 TRUSTED = [
@@ -135,7 +140,10 @@ def _check(case, impl):
         return None if impl == "bad-case" else "harness accepted an unparsable case"
     buf, batches, ds = p
     try:
-        evs, st = impl.split(";st=")
+        evs, rest = impl.split(";st=")
+        st, al = rest.split(";alias=")
+        if al != "0":
+            return "one ReceiveContext object is in two places at once (main mailbox / stash mailbox / pool): " + al
         st = int(st)
     except ValueError:
         return "unparsable output: " + impl
@@ -200,7 +208,7 @@ def compare(case, impl, model):
 
 
 def is_trivial(case, impl):
-    return impl in ("", "bad-case", ";st=0") or impl.startswith(("CRASH", "panic", "HANG", "LOST", "RUNAWAY", "spawn-error", "tell-error"))
+    return impl in ("", "bad-case", ";st=0;alias=0") or impl.startswith(("CRASH", "panic", "HANG", "LOST", "RUNAWAY", "spawn-error", "tell-error"))
 
 
 def tag(case, impl):
